@@ -1,2 +1,63 @@
-(* C17 - adding a basis stores exactly it and overwrites nothing (theorems added as they are proved) *)
-From BSE Require Import Model.Val Model.AddBasis.
+(* C17 - adding a basis to a data directory stores exactly it and overwrites nothing.  Statements: Proofs/AddBasisDefs.v.
+   The directory is a finite map path -> parsed JSON; validation is the C18 model, index regeneration the C11 model. *)
+From BSE Require Import Model.Val Model.Compose Model.Index Model.Validator Model.AddBasis Proofs.AddBasisDefs.
+From BSE Require Proofs.AddBasisSpec.
+
+Theorem add_from_components_monotone : add_from_components_monotone_stmt.
+Proof. exact AddBasisSpec.add_from_components_monotone. Qed.
+Print Assumptions add_from_components_monotone.
+
+Theorem add_from_components_new_files : add_from_components_new_files_stmt.
+Proof. exact AddBasisSpec.add_from_components_new_files. Qed.
+Print Assumptions add_from_components_new_files.
+
+(* after every successful addition the index file equals the index regenerated from the directory *)
+Theorem add_from_components_index : add_from_components_index_stmt.
+Proof. exact AddBasisSpec.add_from_components_index. Qed.
+Print Assumptions add_from_components_index.
+
+Theorem add_from_components_no_overwrite : add_from_components_no_overwrite_stmt.
+Proof. exact AddBasisSpec.add_from_components_no_overwrite. Qed.
+Print Assumptions add_from_components_no_overwrite.
+
+Theorem add_from_components_name_clash : add_from_components_name_clash_stmt.
+Proof. exact AddBasisSpec.add_from_components_name_clash. Qed.
+Print Assumptions add_from_components_name_clash.
+
+Theorem add_basis_from_dict_monotone : add_basis_from_dict_monotone_stmt.
+Proof. exact AddBasisSpec.add_basis_from_dict_monotone. Qed.
+Print Assumptions add_basis_from_dict_monotone.
+
+Theorem add_basis_from_dict_new_files : add_basis_from_dict_new_files_stmt.
+Proof. exact AddBasisSpec.add_basis_from_dict_new_files. Qed.
+Print Assumptions add_basis_from_dict_new_files.
+
+Theorem add_basis_from_dict_index : add_basis_from_dict_index_stmt.
+Proof. exact AddBasisSpec.add_basis_from_dict_index. Qed.
+Print Assumptions add_basis_from_dict_index.
+
+Theorem add_basis_from_dict_no_overwrite : add_basis_from_dict_no_overwrite_stmt.
+Proof. exact AddBasisSpec.add_basis_from_dict_no_overwrite. Qed.
+Print Assumptions add_basis_from_dict_no_overwrite.
+
+(* the stored component is the supplied data (with description, data source and references set), and it passed validation *)
+Theorem add_basis_from_dict_stores : add_basis_from_dict_stores_stmt.
+Proof. exact AddBasisSpec.add_basis_from_dict_stores. Qed.
+Print Assumptions add_basis_from_dict_stores.
+
+(* over any sequence of additions (failed ones leave the directory as it was) no existing file ever changes *)
+Theorem add_sequence_monotone : add_sequence_monotone_stmt.
+Proof. exact AddBasisSpec.add_sequence_monotone. Qed.
+Print Assumptions add_sequence_monotone.
+
+Example add_demo :
+  match add_from_components [("c/a.1.json", VDict [bse_tag "component"; ("description", VStr "A"); ("data_source", VStr "");
+                                                   ("elements", VDict [("1", VDict [("references", VStrs ["r"]);
+                                                      ("electron_shells", VList [VDict [("function_type", VStr "gto"); ("region", VStr "");
+                                                         ("angular_momentum", VList [VInt 0]); ("exponents", VStrs ["1.0"]);
+                                                         ("coefficients", VList [VStrs ["1.0"]])]])])])])]
+                            ["c/a.1.json"] "c" "x" "X" "fam" "orbital" "d" "1" "rev" "2020-01-01" with
+  | inr d' => map fst d' = ["c/a.1.json"; "c/x.1.element.json"; "x.1.table.json"; "x.metadata.json"; "METADATA.json"]
+  | inl _ => False
+  end.
+Proof. vm_compute. reflexivity. Qed.
